@@ -11,6 +11,13 @@ CHECKS = {
         note="Trusted: TLC, the reference splice semantics in LspDoc.tla (pinned in DESIGN.md appendix), the harness concretisation (distinct letters per position). ASCII only (UTF-16 = bytes) as in the property's quantifier.",
         design="DESIGN.md §4 C17",
         modules=["LspDoc", "MCLspDoc", "MCLspDocSim"], pkgs=["c17"]),
+    "C02": dict(
+        level="translation_validation",
+        technique="TLA+ denotational semantics of the templ language (TemplLang.tla: builder state machine + Denote) evaluated by TLC per program and environment; the repository's generator output is compiled, rendered and matched token-by-token against the denotation",
+        text="TLC enumerates templates from the language specification and computes, for each and for several environments (condition valuations, list lengths, switch keys), the denoted document as a token sequence with must/mustnot/may separator requirements plus the list of expression evaluations. Each program is printed as templ source (three spellings), generated with the working tree's templ CLI, compiled (~500 templates per package), rendered, tokenised with x/net/html and matched against the denotation; evaluation multisets are compared. A generated file that does not compile is a violation attributed to its template.",
+        note="Trusted: Denote (reviewed against the property text; the whitespace clause is encoded as a relation so only what the property states is demanded), the concretiser, x/net/html, the Go compiler. Language subset as listed in the evidence assumptions; values are fixed strings with markup metacharacters, escaping itself is C01's business.",
+        design="DESIGN.md §4 C02",
+        modules=["TemplLang", "MCTemplLang"], pkgs=["c02", "templang"]),
     "C08": dict(
         level="translation_validation",
         technique="TLA+ builder spec of the templ language (TemplLang.tla) enumerated by TLC; every program, in three concrete spellings, is formatted by the real formatter and the real generator's output for original and formatted source is compared",
